@@ -54,6 +54,7 @@ theorem processEvent_popLog (s : BSt) (st : Stmt) : (processEvent s st).1.popLog
   congrArg Core2.popLog (slol_processEvent s st).core2
 
 theorem popN_closed (n : Nat) : PC.Closed (PopN n) where
+  lastFlush := fun _ _ h => h
   siteCnt := fun _ _ h => h
   emitInj := fun _ _ _ _ _ h => h
   clock := fun _ _ h => h
